@@ -105,7 +105,7 @@ const GAS: u64 = 50_000_000;
 
 fn lens_for(ctx: &Ctx) -> Vec<usize> {
     if ctx.quick() {
-        vec![0, 1, 8, 31, 32, 33]
+        vec![0, 1, 2, 7, 8, 9, 15, 16, 17, 31, 32, 33, 63, 64, 65]
     } else {
         vec![0, 1, 2, 3, 4, 5, 6, 7, 8, 9, 15, 16, 17, 31, 32, 33, 63, 64, 65, 127, 128, 129, 255, 256, 257]
     }
